@@ -92,7 +92,9 @@ def TaskSt.fresh (cfg : Cfg) : TaskSt :=
   { started := false, stackCount := 0, disp := 0, dispSet := cfg.dispSet0, inCount := 0, outCount := 0,
     fdepth := cfg.depth, args := 0, slots := fun _ => { origDepth := cfg.depth } }
 
-def setSlot (s : Nat → Frame) (i : Nat) (f : Frame) : Nat → Frame :=
+/-- (`noinline`: the compiled model must evaluate `f` once, when the slot is written, not at
+    every later read of the array) -/
+@[noinline] def setSlot (s : Nat → Frame) (i : Nat) (f : Frame) : Nat → Frame :=
   fun j => if j = i then f else s j
 
 /-! ### read_rstack: __fstack_consume = args ; fstack_account_time ; fstack_update_stack_count -/
@@ -125,6 +127,22 @@ def accountSlots (c : Nat) (sl : Nat → Frame) (r : Rec) : Nat → Frame :=
 /-- fstack_update_stack_count -/
 def newCount (c : Nat) (r : Rec) : Nat := if r.exit then c - 1 else c + 1
 
+/-- `lookupL (map f (range n)) f` is `f` (`lookupL_range`); it is written this way so that the
+    compiled model keeps the first `n` slots as evaluated data (the list is an argument, so it
+    is computed when the state is built): a function-valued field alone is a chain of
+    suspended updates that every read re-evaluates — exponential in the nesting depth -/
+@[noinline] def lookupL (l : List Frame) (f : Nat → Frame) : Nat → Frame :=
+  fun j => match l[j]? with
+    | some x => x
+    | none => f j
+
+theorem lookupL_range (n : Nat) (f : Nat → Frame) : lookupL ((List.range n).map f) f = f := by
+  funext j
+  simp only [lookupL]
+  by_cases h : j < n
+  · simp [h]
+  · simp [h]
+
 def consume (cfg : Cfg) (s : TaskSt) (r : Rec) : TaskSt :=
   { started := true
     stackCount := newCount (startCount s r) r
@@ -134,7 +152,9 @@ def consume (cfg : Cfg) (s : TaskSt) (r : Rec) : TaskSt :=
     outCount := s.outCount
     fdepth := if s.started then s.fdepth else cfg.depth
     args := if r.more then r.payload else s.args
-    slots := accountSlots (startCount s r) (startSlots s r) r }
+    slots := lookupL ((List.range (newCount (startCount s r) r + 2)).map
+                        (accountSlots (startCount s r) (startSlots s r) r))
+                      (accountSlots (startCount s r) (startSlots s r) r) }
 
 /-! ### fstack_entry (on the task after `consume`; the frame is `slots (stack_count - 1)`) -/
 
@@ -286,7 +306,7 @@ def replayTask (cfg : Cfg) (tid : Nat) (s : TaskSt) (r : Rec) : TaskSt × List S
 
 abbrev G := Nat → TaskSt
 
-def upd (g : G) (i : Nat) (s : TaskSt) : G := fun j => if j = i then s else g j
+@[noinline] def upd (g : G) (i : Nat) (s : TaskSt) : G := fun j => if j = i then s else g j
 
 def g0 (cfg : Cfg) : G := fun _ => TaskSt.fresh cfg
 
